@@ -526,7 +526,10 @@ fn exec_aio(sc: &Scenario) -> Report {
                         }
                         last_fill = 0;
                         // a seek sets the position to the new offset
-                        model = if seek_done { t.pos as u64 } else { pb.position() };
+                        // (a seek that failed, or has not completed yet, leaves the bar where it was)
+                        if seek_done {
+                            model = t.pos as u64;
+                        }
                     }
                     "advance" => verif_simrt::sched::advance_quiet(op.n0()),
                     other => return Err(format!("HARNESS unknown op {other}")),
